@@ -9,5 +9,7 @@ CONSTANTS
   MaxClosed = 0
   MaxBal = 0
   MaxVals = 6
-INVARIANTS TypeC17 VarNonNeg MeanInRange OrderFreeC17 VarAlt VarZeroIffConstant ShiftScale WelfordExact
+INVARIANTS TypeC17 VarNonNeg MeanInRange OrderFreeC17 VarAlt VarZeroIffConstant ShiftScale WelfordExact LossesAreSubset
+PROPERTIES PersistIsStutter
 CHECK_DEADLOCK FALSE
+VIEW View
